@@ -481,6 +481,9 @@ pub struct RichOpts {
     pub max_names: usize,
     /// probability (/256) that one section's declared sh_size is made smaller than its real body
     pub shrink_chance: u32,
+    /// one file in 512 gets about 0xff00..0x10004 empty filler sections inserted in front, so that the section
+    /// indexes its headers link to (sh_link, sh_info, e_shstrndx) lie in and around the reserved range 0xff00..0xffff
+    pub many_sections: bool,
 }
 
 #[derive(Clone, Debug)]
@@ -534,6 +537,51 @@ pub fn boundary_for(c: &mut Choice, file_len: usize, own: u64) -> u64 {
     }
 }
 
+/// Insert `k` empty sections at index `at` and renumber everything that refers to a section by index.
+pub fn insert_fillers(f: &mut FileSpec, at: usize, k: usize) {
+    let at = at.min(f.secs.len());
+    let bump = |v: u32| -> u32 { if v as usize >= at { v + k as u32 } else { v } };
+    for s in f.secs.iter_mut() {
+        // sh_link is a section index for these types; sh_info too for relocation sections
+        if matches!(s.hdr.sh_type, SHT_SYMTAB | SHT_DYNSYM | SHT_DYNAMIC | SHT_HASH | SHT_GNU_HASH | SHT_REL | SHT_RELA | SHT_GNU_VERSYM | SHT_GNU_VERNEED | SHT_GNU_VERDEF) {
+            s.hdr.sh_link = bump(s.hdr.sh_link);
+        }
+        if matches!(s.hdr.sh_type, SHT_REL | SHT_RELA) {
+            s.hdr.sh_info = bump(s.hdr.sh_info);
+        }
+    }
+    for g in f.segs.iter_mut() {
+        if let Some(i) = g.covers {
+            if i >= at {
+                g.covers = Some(i + k);
+            }
+        }
+    }
+    if let Some(i) = f.shstrndx {
+        if i >= at {
+            f.shstrndx = Some(i + k);
+        }
+    }
+    for p in f.order.iter_mut() {
+        if let Piece::Body(i) = p {
+            if *i >= at {
+                *p = Piece::Body(*i + k);
+            }
+        }
+    }
+    for o in f.overrides.iter_mut() {
+        if let Target::Shdr(i) = o.target {
+            if i >= at {
+                o.target = Target::Shdr(i + k);
+            }
+        }
+    }
+    let filler = Sec { name: vec![], hdr: Shdr { sh_type: SHT_PROGBITS, sh_addralign: 1, ..Default::default() }, body: vec![], align: 1, ..Default::default() };
+    let tail = f.secs.split_off(at);
+    f.secs.extend(std::iter::repeat(filler).take(k));
+    f.secs.extend(tail);
+}
+
 /// Generate a rich file from a choice sequence.
 pub fn rich_file(c: &mut Choice, o: &RichOpts) -> Rich {
     let enc = ALL_ENC[c.below(4) as usize];
@@ -542,6 +590,10 @@ pub fn rich_file(c: &mut Choice, o: &RichOpts) -> Rich {
     f.ehdr.e_machine = *c.pick(&[0u16, 3, 40, 62, 183, 243, 0xffff]);
     f.ehdr.e_entry = c.val(64);
     f.ehdr.e_flags = c.val(32) as u32;
+    // e_version is not validated by anyone (EI_VERSION is): one file in five carries something else than 1
+    if c.u8() >= 205 {
+        f.ehdr.e_version = c.val(32) as u32;
+    }
     f.ehdr.ident[7] = c.below(20) as u8;
     let mut kinds: Vec<Kind> = vec![];
     let mask = c.u32();
@@ -783,6 +835,13 @@ pub fn rich_file(c: &mut Choice, o: &RichOpts) -> Rich {
         }
         if c.chance(20) {
             f.omit_shdrs = true;
+        }
+    }
+    if o.many_sections && !f.secs.is_empty() && c.u8() == 0xC7 && c.u8() >= 128 {
+        let k = 0xff00 - 3 + c.below(0x108) as usize;
+        insert_fillers(&mut f, 1, k);
+        for _ in 0..k {
+            kinds.insert(1, Kind::Progbits);
         }
     }
     // layout
